@@ -119,8 +119,8 @@ func ruleC17Walk(cx *Ctx) {
 			}
 			// only loops that walk the stripes: the index is loop carried
 			ph, isPhi := idx.(*ssa.Phi)
-			if !isPhi || !loop[ph.Block()] {
-				continue
+			if !isPhi || !loop[ph.Block()] || ph.Block() != h {
+				continue // the index is carried by an inner loop: that loop is the walk, not the retry loop around it
 			}
 			nLoops++
 			if reach[origin(fn)] {
